@@ -15,11 +15,11 @@ TECHNIQUE = ('runtime monitoring with fault injection: a file-object proxy insta
 RULE = ('for each built-in generator (textX->dot, textX->PlantUML, any->dot) and each model of a small corpus (grammar files of '
         'different sizes, models with 1-30 objects): a clean run counts the N write/flush/close/rename calls on the target; '
         'then EVERY k in 1..N is injected (exhaustive) under two models of the file object (write-through; buffered: text '
-        'written so far is lost when the flush inside flush()/close() fails, as on a full disk), with the target absent, and '
-        'with an older target present plus overwrite. Oracle: after the failure the output directory holds no new file (target absent; with overwrite the old '
+        'written so far is lost when the flush inside flush()/close() fails, as on a full disk), with the target absent, with an older target present plus overwrite, and with the target being a symbolic link '
+        '(valid + overwrite, dangling). Oracle: after the failure the output directory holds no new file (target absent; with overwrite the old '
         'or the complete new content), and a following run without overwrite produces the complete file. distinct = '
         '(generator, model, k, pre-existing target); non-trivial = k > 1 (something was already written)')
-REQUIRED = {'fault_points_injected': 150, 'buffered_mode_faults': 75, 'write_through_faults': 75, 'generators': 3, 'clean_runs': 9, 'with_existing_target': 40, 'followup_runs': 100}
+REQUIRED = {'fault_points_injected': 150, 'buffered_mode_faults': 75, 'write_through_faults': 75, 'generators': 3, 'clean_runs': 9, 'with_existing_target': 40, 'with_symlink_target': 20, 'with_dangling_symlink_target': 20, 'followup_runs': 100}
 
 GRAMMARS = [
     "Model: 'm' x=INT;",
@@ -202,43 +202,68 @@ def run_case(ctx, ci, rep_base):
         n = STATE['calls']
         ctx.note('calls_in_clean_run_%s_%s_%s' % (lang, target, gi if mi is None else 'm%d' % mi), n)
         os.remove(tpath)
+        store = os.path.join(tmp, 'store')
+        os.makedirs(store)
         for k, mode in [(k, mode) for k in range(1, n + 1) for mode in ('through', 'buffered')]:
-            for existing in (False, True):
-                if existing and k % 2 == 0 and k < n - 3:
+            for existing in (False, True, 'symlink', 'dangling'):
+                if existing is True and k % 2 == 0 and k < n - 3:
                     continue
-                for fn in os.listdir(out):
-                    os.remove(os.path.join(out, fn))
+                if existing in ('symlink', 'dangling') and (k + (mode == 'buffered')) % 3 and k < n - 2:
+                    continue
+                for dd in (out, store):
+                    for fn in os.listdir(dd):
+                        os.remove(os.path.join(dd, fn))
                 old = norm('OLD CONTENT\n')
-                if existing:
+                spath = os.path.join(store, base)
+                if existing is True:
                     with open(tpath, 'w') as f:
                         f.write(old)
                     ctx.count('with_existing_target')
-                err = run(k, existing, mode)
+                elif existing == 'symlink':
+                    with open(spath, 'w') as f:
+                        f.write(old)
+                    os.symlink(spath, tpath)
+                    ctx.count('with_symlink_target')
+                elif existing == 'dangling':
+                    os.symlink(spath, tpath)
+                    ctx.count('with_dangling_symlink_target')
+                err = run(k, existing in (True, 'symlink'), mode)
                 ctx.count('buffered_mode_faults' if mode == 'buffered' else 'write_through_faults')
                 ctx.count('fault_points_injected')
                 rep = dict(rep_base, ci=ci)
                 wit = {'generator': '%s->%s' % (lang, target), 'input': base, 'fail_at_call': k, 'of_calls': n, 'call_kind': STATE['fired'],
-                       'target_existed_before': existing, 'file_model': mode, 'directory_after': sorted(os.listdir(out))}
+                       'target_existed_before': existing, 'file_model': mode, 'directory_after': sorted(os.listdir(out)),
+                       'linked_directory_after': sorted(os.listdir(store))}
                 ctx.case((lang, target, gi, mi, k, existing, mode), k > 1, wit if ctx.evaluations < 3 else None)
                 if err is None:
                     ctx.violation(None, 'the injected failure at call %d/%d was swallowed' % (k, n), wit, rep)
                     continue
                 left = sorted(os.listdir(out))
-                if not existing:
-                    if left:
-                        sizes = {fn: os.path.getsize(os.path.join(out, fn)) for fn in left}
-                        ctx.violation(None, '%s->%s: failure at %s #%d of %d leaves %r behind (complete output has %d bytes)' % (
-                            lang, target, STATE['fired'], k, n, sizes, len(complete.encode('utf-8'))), wit, rep)
+                if existing is False or existing == 'dangling':
+                    regular = [fn for fn in left if not os.path.islink(os.path.join(out, fn))] + \
+                        ['store/' + fn for fn in os.listdir(store)]
+                    if regular:
+                        sizes = {fn: os.path.getsize(os.path.join(tmp, fn) if fn.startswith('store/') else os.path.join(out, fn)) for fn in regular}
+                        ctx.violation(None, '%s->%s: failure at %s #%d of %d leaves %r behind (complete output has %d bytes)%s' % (
+                            lang, target, STATE['fired'], k, n, sizes, len(complete.encode('utf-8')),
+                            ' [target was a dangling symbolic link]' if existing else ''), wit, rep)
                         continue
+                    for fn in left:
+                        os.remove(os.path.join(out, fn))
                 else:
                     content = None
                     if os.path.exists(tpath):
                         with open(tpath, encoding='utf-8') as f:
                             content = norm(f.read())
-                    if left != [base] or content not in (old, complete):
-                        ctx.violation(None, '%s->%s with overwrite: failure at %s #%d of %d leaves %r, target holds %s' % (
-                            lang, target, STATE['fired'], k, n, left,
-                            'neither the old nor the complete new content (%d bytes)' % len(content or '') if content not in (old, complete) else 'ok'), wit, rep)
+                    linked = None
+                    if existing == 'symlink' and os.path.exists(spath):
+                        with open(spath, encoding='utf-8') as f:
+                            linked = norm(f.read())
+                    if left != [base] or content not in (old, complete) or (existing == 'symlink' and linked not in (old, complete)):
+                        ctx.violation(None, '%s->%s with overwrite%s: failure at %s #%d of %d leaves %r, target holds %s' % (
+                            lang, target, ' (target is a symbolic link)' if existing == 'symlink' else '', STATE['fired'], k, n, left,
+                            'neither the old nor the complete new content (%d bytes)' % len(content or linked or '')
+                            if (content not in (old, complete) or linked not in (None, old, complete)) else 'ok'), wit, rep)
                         continue
                     os.remove(tpath)
                 # follow-up run without overwrite
